@@ -128,7 +128,18 @@ func Solve(mkScript func(forCVC5 bool) string, timeoutS int, scratch string, tag
 			cmd.Stderr = &out
 			_ = cmd.Run()
 			txt := out.String()
-			first := strings.TrimSpace(strings.SplitN(txt, "\n", 2)[0])
+			// the verdict is the first line that is one (solvers may print warnings before it)
+			first := ""
+			for _, ln := range strings.Split(txt, "\n") {
+				l := strings.TrimSpace(ln)
+				if l == "sat" || l == "unsat" || l == "unknown" || l == "timeout" || strings.HasPrefix(l, "(error") {
+					first = l
+					break
+				}
+			}
+			if i := strings.Index(txt, first); first != "" && i > 0 {
+				txt = txt[i:]
+			}
 			st := "unknown"
 			switch {
 			case first == "unsat":
